@@ -279,6 +279,14 @@ func runCrash(seed int64, nops int, size uint64, prof string, unstable bool, out
 				sr.Step(Op{Id: 900010, Proc: "lookup", H: "root", Name: "a"})
 				sr.Step(Op{Id: 900011, Proc: "write", H: "@900010", Off: 1, Cnt: 3, Stable: 2, Data: DataSpec{Pat: true, Len: 3, Seed: 5}})
 			}
+			if script != nil && ci%2 == 1 {
+				// the first object created after the recovery is a directory (it may draw the number of an inode
+				// whose blocks are still being freed): its own entries must be there, now and after the next restart
+				sr.Step(Op{Id: 900020, Proc: "mkdir", H: "root", Name: name + "d"})
+				sr.Step(Op{Id: 900021, Proc: "lookup", H: "@900020", Name: ".."})
+				sr.Step(Op{Id: 900022, Proc: "create", H: "@900020", Name: "in"})
+				sr.Step(Op{Id: 900023, Proc: "readdirplus", H: "@900020", Dircount: 1 << 20, Maxcount: 1 << 20})
+			}
 			sr.Step(Op{Id: 900001, Proc: "create", H: "root", Name: name})
 			sr.Step(Op{Id: 900002, Proc: "write", H: "@900001", Off: 4000, Cnt: 200, Stable: 2, Data: DataSpec{Pat: true, Len: 200, Seed: uint64(ci)}})
 			sr.Step(Op{Id: 900003, Proc: "read", H: "@900001", Off: 0, Cnt: 5000})
